@@ -1,10 +1,10 @@
-\* quick, exhaustive: every chain of at most 2 child/edge items (with and without root Index) from
+\* thorough, exhaustive: chains of 3 items, all references of dimension <= 3, results rewritten once more
 \* every reference of dimension <= 3, rewritten by canonical, uppermost and promote (every ndims),
 \* and every result rewritten once more (chains with ScaledUpdim / Identity items)
 SPECIFICATION Spec
 CONSTANTS
   MaxDim = 3
-  MaxLen = 2
+  MaxLen = 3
   MaxRounds = 1
   WrongSwap = FALSE
 INVARIANT MapPreserved
